@@ -61,6 +61,39 @@ func (s *Store) Scan() {
 	}
 }
 
+func (m *Metric) SplitCreate(k string) {
+	m.RLock()
+	lv := m.find(k)
+	m.RUnlock()
+	if lv == nil {
+		m.Lock()
+		defer m.Unlock()
+		m.LabelValues = append(m.LabelValues, &LabelValue{})
+		n := 0
+		for i := 0; i < len(k); i++ {
+			if k[i] == '-' {
+				continue
+			}
+			n++
+		}
+		m.labelValuesMap[k] = &LabelValue{}
+	}
+}
+
+func (m *Metric) Recheck(k string) {
+	m.RLock()
+	lv := m.find(k)
+	m.RUnlock()
+	if lv == nil {
+		m.Lock()
+		defer m.Unlock()
+		if m.find(k) == nil {
+			m.LabelValues = append(m.LabelValues, &LabelValue{})
+			m.labelValuesMap[k] = &LabelValue{}
+		}
+	}
+}
+
 func (s *Store) Leaky() {
 	for _, ml := range s.Metrics {
 		for _, m := range ml {
@@ -87,6 +120,28 @@ func SelfTestLock() error {
 		// no searchMu; the inner loop is entered again holding a lock it did not hold at its head is fine,
 		// but the read of s.Metrics is unguarded
 		"Store.Leaky": {"Store.Leaky:Store.Metrics:R"},
+	}
+	wantStale := map[string][]string{
+		"Metric.Good":        {},
+		"Metric.SplitCreate": {"Metric.SplitCreate:Metric.labelValuesMap:W"},
+		"Metric.Recheck":     {},
+	}
+	for fn, w := range wantStale {
+		ir, err := x.Entry("metrics", fn, nil)
+		if err != nil {
+			return err
+		}
+		if lv := LockViolations(ir); len(lv) != 0 {
+			return fmt.Errorf("%s: lockset violations %v, want none", fn, lv)
+		}
+		var got []string
+		for _, s := range StaleViolations(ir) {
+			st := x.Sites[s]
+			got = append(got, st.Fn+":"+st.Field+":"+st.Kind)
+		}
+		if fmt.Sprint(got) != fmt.Sprint(w) {
+			return fmt.Errorf("%s (stale): got %v want %v\nIR %s", fn, got, w, LockCoq(ir))
+		}
 	}
 	for fn, w := range want {
 		ir, err := x.Entry("metrics", fn, nil)
